@@ -3,6 +3,9 @@ package checks
 import (
 	"context"
 	"fmt"
+	"os"
+	"os/exec"
+	"path/filepath"
 	"strings"
 
 	"git.defalsify.org/vise.git/cache"
@@ -69,7 +72,7 @@ func malformed(class string) bool {
 }
 
 // checkC15 runs the decoders on one input. Returns violations through report.
-func checkC15(x []byte, sc *c15scratch, c *vk.Ctx, key string, runVM bool) {
+func checkC15(x []byte, sc *c15scratch, c vk.Recorder, key string, runVM bool) {
 	_, class, off := codec.Decode(x)
 	c.Count("class_"+class, 1)
 	opAt := "?"
@@ -198,11 +201,12 @@ func C15() *vk.Check {
 		ID:    "C15",
 		Level: "exploration",
 		Rule: "every input is classified by an independent strict validator (complete-valid / truncated / bad-opcode / overlong-int / zero-length-symbol) and presented three ways (cap==len; prefix of a larger buffer with fill 0xC3; same with fill 0x01) to ParseHandler.ToString/ParseAll and to the VM's Parse* chain; Vm.Run on a subset. Oracle: no panic; malformed => error; the three presentations agree (else the result depends on bytes past the end = over-read). " +
-			"Inputs: ALL byte strings of length<=3 (thorough: 16,843,009, exhaustive; quick: all of length<=2, all of length 3 starting with 0x00, and length 3 with second byte in {0..13,0xff} for the other first bytes, which are all out-of-range opcodes), all strings of length 4..5 (quick) / 4..6 (thorough) over an 18-byte alphabet {0..13,0x20,'a',0x7f,0xff}, and for PRNG programs (1..12 instructions) EVERY truncation and EVERY single-byte substitution (256 values at each position). distinct: enumerated inputs are distinct by construction; non-trivial = every input (each is decoded by both decoders).",
+			"Inputs: ALL byte strings of length<=3 (thorough: 16,843,009, exhaustive; quick: all of length<=2, all of length 3 starting with 0x00, and length 3 with second byte in {0..13,0xff} for the other first bytes, which are all out-of-range opcodes), all strings of length 4..5 (quick) / 4..6 (thorough) over an 18-byte alphabet {0..13,0x20,'a',0x7f,0xff}, and for PRNG programs (1..12 instructions) EVERY truncation and EVERY single-byte substitution (256 values at each position). thorough additionally runs Go's coverage-guided fuzzer (go test -fuzz, 3,000,000 executions, seeded with generated programs and their truncations) on the same oracle. distinct: enumerated inputs are distinct by construction (fuzz executions are counted as evaluations only); non-trivial = every input (each is decoded by both decoders).",
 		Assumptions:    []string{"the strict validator (codec.Decode) is the reference for what is malformed", "opcode 0 (NOOP) and errors on complete-valid input are not this property's concern (counted only)", "Vm.Run: only runtime-error panics count; explicit operand guards of package state are execution semantics"},
 		MinEvaluations: 100000,
 		Shards:         func(string) int { return 16 },
 		Run:            runC15,
+		Serial:         c15Fuzz,
 	}
 }
 
@@ -316,3 +320,88 @@ func runC15(c *vk.Ctx) {
 	c.EvalN(m, m)
 	c.Count("mutant_inputs", m)
 }
+
+// C15Oracle runs the decoder oracle on one input and returns the signatures of the violations it shows
+// (used by the coverage-guided fuzz target of the thorough tier).
+func C15Oracle(x []byte) []string {
+	c := vk.NewCollector()
+	checkC15(x, newC15Scratch(), c, "fuzz", len(x) < 64)
+	var sigs []string
+	for _, v := range c.Violations() {
+		sigs = append(sigs, v.Sig+" :: "+v.Msg)
+	}
+	return sigs
+}
+
+// c15Fuzz runs Go's coverage-guided fuzzer on the fuzz target (thorough tier only).
+func c15Fuzz(c *vk.Ctx) {
+	if c.Quick() {
+		return
+	}
+	modfile := os.Getenv("VERIF_MODFILE")
+	if modfile == "" {
+		c.Inconclusive("VERIF_MODFILE not set: the fuzz leg cannot build")
+		return
+	}
+	tmp, err := os.MkdirTemp("", "c15fuzz-")
+	if err != nil {
+		c.Inconclusive(err.Error())
+		return
+	}
+	defer os.RemoveAll(tmp)
+	// the fuzz target lives in a copy so that crashers are not written into /verif
+	src := filepath.Join(vk.VerifDir, "harness")
+	work := filepath.Join(tmp, "harness")
+	if out, err := exec.Command("cp", "-r", src, work).CombinedOutput(); err != nil {
+		c.Inconclusive("cannot copy harness: " + string(out))
+		return
+	}
+	execs := "3000000x"
+	cmd := exec.Command("go", "test", "-modfile="+modfile, "-tags", "verif", "./fuzz/", "-run", "^$", "-fuzz", "FuzzC15", "-fuzztime", execs, "-test.fuzzcachedir="+filepath.Join(tmp, "cache"))
+	cmd.Dir = work
+	out, err := cmd.CombinedOutput()
+	text := string(out)
+	n := int64(0)
+	for _, ln := range strings.Split(text, "\n") {
+		if i := strings.Index(ln, "execs: "); i >= 0 {
+			var v int64
+			fmt.Sscanf(ln[i+7:], "%d", &v)
+			if v > n {
+				n = v
+			}
+		}
+	}
+	c.EvalN(n, 0)
+	c.Count("fuzz_executions", n)
+	if err != nil {
+		if strings.Contains(text, "Failing input written to") || strings.Contains(text, "--- FAIL") {
+			msg := text
+			if i := strings.Index(msg, "--- FAIL"); i >= 0 {
+				msg = msg[i:]
+			}
+			if len(msg) > 1500 {
+				msg = msg[:1500]
+			}
+			sig := "fuzz:violation"
+			if i := strings.Index(msg, "C15VIOLATION "); i >= 0 {
+				rest := msg[i+13:]
+				if j := strings.Index(rest, " :: "); j > 0 {
+					sig = rest[:j]
+				}
+			}
+			c.Violate(sig, "coverage-guided fuzzing found: "+msg, "fuzz", map[string]interface{}{"go_test_output": msg})
+			return
+		}
+		c.Inconclusive("go test -fuzz failed to run: " + trunc2(text, 400))
+	}
+}
+
+func trunc2(s string, n int) string {
+	if len(s) > n {
+		return s[:n]
+	}
+	return s
+}
+
+// GenSmallProgramForFuzz exposes the program generator to the fuzz target (corpus seeds).
+func GenSmallProgramForFuzz(r *vk.RNG) []codec.Ins { return genSmallProgram(r) }
